@@ -261,6 +261,10 @@ static void one_action(char *act)
 		F[i].o->handler_err = (a2 && a2[2] == '1') ? h_err : NULL;
 		logf_("API %s f%d %d %d %d\n", op[0] == 'r' ? "fdRegister" : "fdRegisterTry", i,
 		      F[i].o->handler_in != NULL, F[i].o->handler_out != NULL, F[i].o->handler_err != NULL);
+		if (F[i].fd < 900) {	/* start from a blocking, inheritable descriptor so that the library has to change it */
+			fcntl(F[i].fd, F_SETFL, fcntl(F[i].fd, F_GETFL) & ~O_NONBLOCK);
+			fcntl(F[i].fd, F_SETFD, 0);
+		}
 		if (op[0] == 'r') {
 			iv_fd_register(F[i].o);
 			F[i].isreg = 1;
@@ -270,6 +274,8 @@ static void one_action(char *act)
 			F[i].isreg = (r == 0);
 			logf_("RET %d\n", r ? -1 : 0);
 		}
+		if (F[i].isreg && F[i].fd < 900)
+			logf_("FDFLAGS f%d nonblock=%d cloexec=%d\n", i, !!(fcntl(F[i].fd, F_GETFL) & O_NONBLOCK), !!(fcntl(F[i].fd, F_GETFD) & FD_CLOEXEC));
 	} else if (!strcmp(op, "unreg")) {
 		i = objnum(a1, 'f');
 		if (guard && (!F[i].exists || !iv_fd_registered(F[i].o))) return;
@@ -674,6 +680,7 @@ static int do_epoll(const char *prim, int epfd, struct epoll_event *events, int 
 	struct iv_state *st = the_state();
 
 	wait_calls++;
+	vclock += 1000;	/* a system call takes time: the clock never stands still across a wait */
 	log_wait_epoll(prim, to_ns, is_ms, raw);
 	if (!strcmp(prim, "epoll_pwait2") && cfg_nopwait2) {
 		logf_("WRET ENOSYS\n");
@@ -764,6 +771,7 @@ static int do_poll(const char *prim, struct pollfd *pfds, nfds_t n, long long to
 	int first = 1;
 
 	wait_calls++;
+	vclock += 1000;
 	logf_("WAIT prim=%s to=", prim);
 	if (to_ns < 0) logf_("inf"); else if (is_ms) logf_("%lldms", raw); else logf_("%lldns", raw);
 	logf_(" int=");
@@ -834,6 +842,26 @@ int __wrap_poll(struct pollfd *pfds, nfds_t n, int to_ms)
 	if (!in_library || n == 1 && to_ms == 0 && pfds != the_state()->u.poll.pfds)
 		return poll(pfds, n, to_ms);	/* iv_fd_poll_notify_fd_sync's probe */
 	return do_poll("poll", pfds, n, to_ms < 0 ? -1 : (long long)to_ms * 1000000LL, 1, to_ms);
+}
+
+/* ------------------------------------------------------------------ resource ledger (C18) */
+#include <dirent.h>
+extern size_t __sanitizer_get_current_allocated_bytes(void);
+extern int __lsan_do_recoverable_leak_check(void);
+static void ledger(const char *tag)
+{
+	DIR *d = opendir("/proc/self/fd");
+	struct dirent *de;
+	int n = 0;
+	if (d != NULL) {
+		while ((de = readdir(d)) != NULL)
+			if (de->d_name[0] != '.')
+				n++;
+		closedir(d);
+		n--;	/* the directory handle itself */
+	}
+	logf_("%s fds=%d heap=%zu timerfd=%d leaks=%d\n", tag, n, __sanitizer_get_current_allocated_bytes(), ktimer_fd >= 0,
+	      !strcmp(tag, "LEDGER") ? __lsan_do_recoverable_leak_check() : 0);
 }
 
 /* ------------------------------------------------------------------ scenario */
@@ -943,6 +971,28 @@ int main(int argc, char **argv)
 			logf_("API main\n");
 			iv_main();
 			logf_("MAINRET\n");
+		} else if (!strcmp(op, "cycle")) {
+			/* tear the loop down and bring it up again; everything must be unregistered (the scenario's job) */
+			int i, busy = 0;
+			for (i = 0; i < MAXO; i++) {
+				busy |= F[i].exists == 1 && iv_fd_registered(F[i].o);
+				busy |= T[i].exists == 1 && iv_timer_registered(T[i].o);
+				busy |= K[i].exists == 1 && iv_task_registered(K[i].o);
+				busy |= E[i].exists == 1 && E[i].isreg;
+				busy |= R[i].exists == 1 && R[i].isreg;
+			}
+			if (busy) {
+				logf_("CYCLE-SKIPPED objects still registered\n");
+			} else {
+				ledger("LEDGER-LIVE");
+				iv_deinit();
+				ledger("LEDGER");
+				memset(kint_present, 0, sizeof(kint_present));
+				ktimer_fd = -1;
+				ktimer_armed = 0;
+				iv_init();
+				logf_("CFG method=%s timerfd=%d pwait2=%d\n", iv_poll_method_name(), !cfg_notimerfd, 1);
+			}
 		} else {
 			logf_("HARNESS-ERROR unknown line %s\n", op);
 			finish(NULL);
